@@ -10,7 +10,7 @@ theorem serKey_opt : ∀ k : SVal, (serKey k).toOption = expectedKey k
   | .str _ => rfl
   | .unitVariant _ _ => rfl
   | .newtype _ v => by simp only [serKey, expectedKey]; exact serKey_opt v
-  | .bool _ => rfl | .int _ _ => rfl | .f32 _ => rfl | .f64 _ => rfl | .char _ => rfl
+  | .bool _ => rfl | .int w _ => by cases w <;> rfl | .f32 _ => rfl | .f64 _ => rfl | .char _ => rfl
   | .bytes _ => rfl | .none => rfl | .some _ => rfl | .unit => rfl | .unitStruct _ => rfl
   | .seq _ => rfl | .tuple _ => rfl | .tupleStruct _ _ => rfl | .map _ => rfl | .struct _ _ => rfl
   | .newtypeVariant _ _ _ => rfl | .tupleVariant _ _ _ => rfl | .structVariant _ _ _ => rfl
@@ -23,6 +23,7 @@ theorem serDatetime_opt : ∀ (fs : List (Bytes × SVal)) (acc : Option Datetime
     by_cases hk : (k == dtField) = true
     · simp only [hk, if_true]
       cases v <;> try rfl
+      case int w n => cases w <;> rfl
       case str s =>
         simp only []
         cases h : Datetime.Std.fromStr s
